@@ -2,3 +2,4 @@ import Hub.Props.C10
 import Hub.Props.C17
 import Hub.Props.C11
 import Hub.Props.C16
+import Hub.Props.C13
